@@ -9,43 +9,35 @@
    ty_of    = the typechecker's view of an elaborated tree       (Arith/Promote.v)
    All theorems quantify over ALL expression trees (operators, conversions, parentheses, ?:)
    and ALL literal values (bit patterns for float/double).
-   `_refuted` = false on the faithful model of the pinned tree, with the witness (each is
-   replayed on the real code by checks/c10.py); `_partial` = proved for the trees that avoid
-   the defective nodes:
-     clean e  = every node has an opcode, no long*long node, no bool != bool node
-     strict e = no && || ?: and no enum operand under a bit operator *)
+   `_refuted` = false on the faithful model of the tree, with the witness (each is replayed
+   on the real code by checks/c10.py); `_partial` = proved for the trees that avoid the
+   defective nodes:
+     emit_ok e     = every node has an opcode (fails for enum operands of < > <= >= == != %)
+     no_enum_div e = no enum operand under / or % (raw C division in the reducer)
+     strict e      = no && || ?: and no enum operand under a bit operator *)
 From Coq Require Import ZArith Bool List.
 From NV Require Import Arith.NumTy Arith.VMOps Arith.Promote Arith.RtEval Arith.Constred
   Arith.ConstredProofs.
 Local Open Scope Z_scope.
 
 Theorem fold_agrees_with_runtime_partial : forall e t e',
-  ty_of e = Some t -> clean e = true -> fold e = FOk e' ->
+  ty_of e = Some t -> emit_ok e = true -> fold e = FOk e' ->
   ty_of e' = Some t /\ rt_eval e' = rt_eval e.
 Proof. exact ConstredProofs.fold_agrees_with_runtime_partial. Qed.
 Print Assumptions fold_agrees_with_runtime_partial.
 
 Theorem fold_literal_is_runtime_value : forall e t l,
-  ty_of e = Some t -> clean e = true -> fold e = FOk (ELit l) ->
+  ty_of e = Some t -> emit_ok e = true -> fold e = FOk (ELit l) ->
   rt_eval e = Val (lit_val l) /\ lit_ty l = t.
 Proof. exact ConstredProofs.fold_literal_is_runtime_value. Qed.
 Print Assumptions fold_literal_is_runtime_value.
 
+(* without the emit_ok condition the statement is false: E::C < 9 is folded, the same
+   comparison on variables makes the emitter abort *)
 Theorem fold_agrees_with_runtime_refuted :
   exists e t l, ty_of e = Some t /\ fold e = FOk (ELit l) /\ rt_eval e <> Val (lit_val l).
 Proof. exact ConstredProofs.fold_agrees_with_runtime_refuted. Qed.
 Print Assumptions fold_agrees_with_runtime_refuted.
-
-(* the three witnesses, concretely *)
-Theorem long_mul_fold_is_wrong :
-  fold ex_long_mul = FOk (ELit (LLong 1410065408)) /\ rt_eval ex_long_mul = Val (VLong 10000000000).
-Proof. exact ConstredProofs.long_mul_fold_is_wrong. Qed.
-Print Assumptions long_mul_fold_is_wrong.
-
-Theorem bool_neq_runtime_is_wrong :
-  fold ex_bool_neq = FOk (ELit (LBool true)) /\ rt_eval ex_bool_neq = Val (VInt 0).
-Proof. exact ConstredProofs.bool_neq_runtime_is_wrong. Qed.
-Print Assumptions bool_neq_runtime_is_wrong.
 
 Theorem enum_compare_is_not_emitted :
   ty_of ex_enum_lt = Some TBool /\ fold ex_enum_lt = FOk (ELit (LBool true)) /\
@@ -53,21 +45,39 @@ Theorem enum_compare_is_not_emitted :
 Proof. exact ConstredProofs.enum_compare_is_not_emitted. Qed.
 Print Assumptions enum_compare_is_not_emitted.
 
+(* regression statements for the defects fixed in the tree *)
+Theorem long_mul_folds_like_runtime :
+  fold ex_long_mul = FOk (ELit (LLong 10000000000)) /\ rt_eval ex_long_mul = Val (VLong 10000000000).
+Proof. exact ConstredProofs.long_mul_folds_like_runtime. Qed.
+Print Assumptions long_mul_folds_like_runtime.
+
+Theorem bool_neq_folds_like_runtime :
+  fold ex_bool_neq = FOk (ELit (LBool true)) /\ rt_eval ex_bool_neq = Val (VInt 1).
+Proof. exact ConstredProofs.bool_neq_folds_like_runtime. Qed.
+Print Assumptions bool_neq_folds_like_runtime.
+
+Theorem int_min_div_wraps_both_sides :
+  fold ex_int_min_div = FOk (ELit (LInt (-2147483648))) /\
+  rt_eval ex_int_min_div = Val (VInt (-2147483648)) /\
+  fold ex_int_min_mod = FOk (ELit (LInt 0)) /\ rt_eval ex_int_min_mod = Val (VInt 0).
+Proof. exact ConstredProofs.int_min_div_wraps_both_sides. Qed.
+Print Assumptions int_min_div_wraps_both_sides.
+
 (* every eagerly evaluated tree folds completely *)
 Theorem fold_total : forall e t,
-  ty_of e = Some t -> clean e = true -> strict e = true ->
-  fold e = FCrash \/ fold e = FReject \/ exists l, fold e = FOk (ELit l) /\ lit_ty l = t.
+  ty_of e = Some t -> emit_ok e = true -> no_enum_div e = true -> strict e = true ->
+  fold e = FReject \/ exists l, fold e = FOk (ELit l) /\ lit_ty l = t.
 Proof. exact ConstredProofs.fold_total. Qed.
 Print Assumptions fold_total.
 
 Theorem fold_div0_is_runtime_fault_partial : forall e t,
-  ty_of e = Some t -> clean e = true -> strict e = true ->
+  ty_of e = Some t -> emit_ok e = true -> strict e = true ->
   fold e = FReject -> rt_eval e = Fault DivisionByZero.
 Proof. exact ConstredProofs.fold_div0_is_runtime_fault_partial. Qed.
 Print Assumptions fold_div0_is_runtime_fault_partial.
 
 Theorem fold_div0_is_runtime_fault_refuted :
-  exists e t v, ty_of e = Some t /\ clean e = true /\ fold e = FReject /\ rt_eval e = Val v.
+  exists e t v, ty_of e = Some t /\ emit_ok e = true /\ fold e = FReject /\ rt_eval e = Val v.
 Proof. exact ConstredProofs.fold_div0_is_runtime_fault_refuted. Qed.
 Print Assumptions fold_div0_is_runtime_fault_refuted.
 
@@ -76,17 +86,23 @@ Theorem cond_div0_is_rejected_but_runs :
 Proof. exact ConstredProofs.cond_div0_is_rejected_but_runs. Qed.
 Print Assumptions cond_div0_is_rejected_but_runs.
 
-(* the reducer itself traps on INT_MIN / -1 *)
+(* the reducer does not trap ... *)
+Theorem fold_never_crashes_partial : forall e t,
+  ty_of e = Some t -> emit_ok e = true -> no_enum_div e = true -> fold e <> FCrash.
+Proof. exact ConstredProofs.fold_never_crashes_partial. Qed.
+Print Assumptions fold_never_crashes_partial.
+
+(* ... except through the enum arms of expr_div_constred / expr_mod_constred *)
 Theorem fold_never_crashes_refuted :
-  exists e t, ty_of e = Some t /\ clean e = true /\ strict e = true /\ fold e = FCrash.
+  exists e t v, ty_of e = Some t /\ emit_ok e = true /\ strict e = true /\
+    fold e = FCrash /\ rt_eval e = Val v.
 Proof. exact ConstredProofs.fold_never_crashes_refuted. Qed.
 Print Assumptions fold_never_crashes_refuted.
 
-Theorem fold_crash_is_runtime_failure : forall e t,
-  ty_of e = Some t -> clean e = true -> strict e = true ->
-  fold e = FCrash -> rt_eval e = Crash SigFpe \/ rt_eval e = Fault DivisionByZero.
-Proof. exact ConstredProofs.fold_crash_is_runtime_failure. Qed.
-Print Assumptions fold_crash_is_runtime_failure.
+(* the VM never traps *)
+Theorem run_never_traps : forall e, run e <> Crash SigFpe.
+Proof. exact ConstredProofs.run_never_traps. Qed.
+Print Assumptions run_never_traps.
 
 (* the theorems apply to everything the typechecker accepts *)
 Theorem elab_well_typed : forall s e t, elab s = Some (e, t) -> ty_of e = Some t.
@@ -96,6 +112,6 @@ Print Assumptions elab_well_typed.
 (* hypotheses are satisfiable: a mixed, eagerly evaluated, clean tree *)
 Example hypotheses_satisfiable :
   let e := EBin Add (EConv I2D (ELit (LInt 1))) (ELit (LDouble 4612811918334230528)) in
-  ty_of e = Some TDouble /\ clean e = true /\ strict e = true /\
+  ty_of e = Some TDouble /\ emit_ok e = true /\ no_enum_div e = true /\ strict e = true /\
   fold e = FOk (ELit (LDouble 4615063718147915776)).
 Proof. vm_compute. repeat split. Qed.
